@@ -8,6 +8,11 @@
 #endif
 static myth_tls_tree_node_t NP0, NP1, NP2, NP3, NP4, NP5, NP6, NP7, NP8, NP9, NP10, NP11, NP12, NP13;
 static int np; static int free_count[16];
+static void pool_garbage(void){   /* malloc returns uninitialised memory: every pool node starts with arbitrary contents */
+  __CPROVER_havoc_object(&NP0); __CPROVER_havoc_object(&NP1); __CPROVER_havoc_object(&NP2); __CPROVER_havoc_object(&NP3); __CPROVER_havoc_object(&NP4);
+  __CPROVER_havoc_object(&NP5); __CPROVER_havoc_object(&NP6); __CPROVER_havoc_object(&NP7); __CPROVER_havoc_object(&NP8); __CPROVER_havoc_object(&NP9);
+  __CPROVER_havoc_object(&NP10); __CPROVER_havoc_object(&NP11); __CPROVER_havoc_object(&NP12); __CPROVER_havoc_object(&NP13);
+}
 void *real_malloc(size_t s){
   if (s == myth_tls_tree_node_sz_node || s == myth_tls_tree_node_sz_leaf) { int i = np++; __CPROVER_assert(i < NPOOL && i < 14, "VERIF harness node pool large enough");
     return i==0?&NP0:i==1?&NP1:i==2?&NP2:i==3?&NP3:i==4?&NP4:i==5?&NP5:i==6?&NP6:i==7?&NP7:i==8?&NP8:i==9?&NP9:i==10?&NP10:i==11?&NP11:i==12?&NP12:&NP13; }
